@@ -11,7 +11,7 @@ comparison and max (anything else stops the run with exit 2).
 import itertools
 
 from ..core import AnalysisError
-from ..absint import (Interp, DT, TD, TZ, Obj, ClassVal, AbsRaise, Unsupported,
+from ..absint import (Interp, DT, TD, TZ, Obj, ClassVal, AbsRaise, Unsupported, Native,
                       Closure, Bound)
 
 ALLOWED_OPS = {"isinstance", "order-compare", "date.tzinfo", "date.replace",
@@ -179,28 +179,43 @@ def evaluate(it, m, at_cls, al_cls, tkind, r, local_tz):
 
 
 def _sublist(ctx, m, al_cls):
-    """Alarms.active == [t for t in self.times if t.is_active()]."""
-    import ast
+    """Alarms.active is exactly the sub-list of self.times whose is_active()
+    is true - the getter interpreted (E7) on stub alarm times."""
+    import itertools
     p = al_cls.properties.get("active", {}).get("get")
     if p is None:
         raise AnalysisError("anchor vanished: Alarms.active")
-    rets = [n for n in ast.walk(p.node) if isinstance(n, ast.Return)]
-    ok = False
-    if len(rets) == 1 and isinstance(rets[0].value, ast.ListComp):
-        lc = rets[0].value
-        g = lc.generators[0]
-        ok = (len(lc.generators) == 1 and isinstance(lc.elt, ast.Name)
-              and isinstance(g.target, ast.Name) and lc.elt.id == g.target.id
-              and isinstance(g.iter, ast.Attribute) and g.iter.attr == "times"
-              and len(g.ifs) == 1 and isinstance(g.ifs[0], ast.Call)
-              and isinstance(g.ifs[0].func, ast.Attribute)
-              and g.ifs[0].func.attr == "is_active"
-              and isinstance(g.ifs[0].func.value, ast.Name)
-              and g.ifs[0].func.value.id == g.target.id)
-    ctx.check(ok, "C15/SUBLIST", "active filters times by is_active",
-              "Alarms.active must be exactly the sub-list of self.times whose "
-              "is_active() is true (same order, nothing added)", p.loc(),
-              detail="[t for t in self.times if t.is_active()]")
+    n = 0
+    bad = None
+    for size in range(0, 5):
+        for flags in itertools.product((True, False), repeat=size):
+            it = Interp(m)
+            al = Obj(al_cls)
+            times = []
+            for fl in flags:
+                t = Obj(None)
+                t.attrs["is_active"] = Native("is_active", lambda i, a, k, fl=fl: fl)
+                times.append(t)
+            al.attrs["times"] = times
+            n += 1
+            try:
+                got = it.getattr(al, "active")
+            except AbsRaise as e:
+                bad = bad or (flags, f"raises {e.cls_name}")
+                continue
+            except Unsupported as e:
+                raise AnalysisError(f"Alarms.active leaves the abstract interface: {e}")
+            want = [t for t, fl in zip(times, flags) if fl]
+            if not isinstance(got, list) or len(got) != len(want) or \
+                    any(g is not w for g, w in zip(got, want)):
+                bad = bad or (flags, "returns " + (
+                    str([times.index(g) if g in times else "?" for g in got])
+                    if isinstance(got, list) else repr(got)))
+    ctx.check(bad is None, "C15/SUBLIST", "active filters times by is_active",
+              f"Alarms.active must be exactly the sub-list of self.times whose "
+              f"is_active() is true (same order, nothing added); for is_active = "
+              f"{list(bad[0]) if bad else ''} it {bad[1] if bad else ''}", p.loc(),
+              detail=f"{n} lists of stub alarm times (length 0..4, every activity pattern)")
 
 
 def _wiring(ctx, m, al_cls):
